@@ -457,12 +457,12 @@ def _c16(tier, seed):
     g = dict(extra_src=['guardalloc.cpp'])
     q = tier == 'quick'; dl = dict(deadline=(100 if q else 2400), timeout=(300 if q else 3000))
     jobs = J('c16.cpp', 'optim', 'spqlios-fma', n=(5 if q else 8), args=['part=cells'], env={'VF_GUARD': 'after', 'VF_FILL': '0xA5'}, **g, **dl)
-    jobs += J('c16.cpp', 'optim', 'spqlios-fma', n=(5 if q else 8), args=['part=cells'], env={'VF_GUARD': 'before', 'VF_FILL': '0x5A'}, **g, **dl)
+    jobs += J('c16.cpp', 'optim', 'spqlios-fma', n=(5 if q else 8), args=['part=cells'], env={'VF_GUARD': 'before', 'VF_FILL': '0x3F'}, **g, **dl)
     jobs += J('c16.cpp', 'asan', 'nayuki-portable', n=(4 if q else 8), args=['part=cells'], cxxflags='-DVF_NO_GUARDALLOC', **dl)
     jobs += J('c16.cpp', 'asan', 'fftw', n=1, args=['part=handoff'], cxxflags='-DVF_NO_GUARDALLOC')
     jobs += J('c16.cpp', 'asan', 'spqlios-fma', n=2, args=['part=placement'], cxxflags='-DVF_NO_GUARDALLOC')
     jobs += J('c16.cpp', 'optim', 'fftw', n=2, args=['part=placement'], env={'VF_GUARD': 'after', 'VF_FILL': '0xA5'}, **g)
-    jobs += J('c16.cpp', 'debug', 'nayuki-portable', n=2, args=['part=placement'], env={'VF_GUARD': 'before', 'VF_FILL': '0x5A'}, **g)
+    jobs += J('c16.cpp', 'debug', 'nayuki-portable', n=2, args=['part=placement'], env={'VF_GUARD': 'before', 'VF_FILL': '0x3F'}, **g)
     for be in BE:
         jobs += J('c16.cpp', 'optim', be, n=1, args=['part=threads'], env={'VF_GUARD': 'off'}, **g)
         jobs += J('c16.cpp', 'optim', be, n=1, args=['part=handoff'], env={'VF_GUARD': 'after', 'VF_FILL': '0xA5'}, **g)   # freed per-thread state faults
